@@ -24,7 +24,7 @@ def _rand_slice(rng, nkids=0):
         st = {"t": "slice", "a": lo, "b": hi, "sep": rng.random() < 0.25}
         r = rng.random()
         if r < 0.4:
-            c = rng.choice([None, 1, 1, 2, -1, -1, -2])
+            c = rng.choice([None, 1, 1, 2, -1, -1, -2, 0])
             if c is not None and c < 0:
                 st["a"], st["b"] = rng.choice([None, nkids - 1, -1, nkids]), rng.choice([None, None, 0, -nkids - 1])
             st["c"] = {"v": c}
@@ -32,7 +32,7 @@ def _rand_slice(rng, nkids=0):
     st = {"t": "slice", "a": _rand_opt_int(rng), "b": _rand_opt_int(rng), "sep": rng.random() < 0.25}
     r = rng.random()
     if r < 0.45:
-        c = rng.choice([None, 1, 2, -1, -2, 3, -3])
+        c = rng.choice([None, 1, 2, -1, -2, 3, -3, 0])
         st["c"] = {"v": c}
     return st
 
@@ -79,7 +79,8 @@ def _rand_steps(rng, tree, start, nsteps, p_miss, canon):
                     nxt = kids[i] if i < len(kids) else None
             else:
                 s = cm.pick_name(rng, 0.6)
-            if not cm.good_name(s):
+            if not cm.good_name(s) and not (s != "" and i == nsteps - 1):
+                # (a name ending in a backslash can only be spelled as the very last step)
                 s = "a"
                 nxt = None
             if nxt is None and cur is not None and cur["k"] in ("d", "c"):
@@ -198,6 +199,8 @@ def _denote_obs(ast, start, label, single, strict):
         r = {"list": cm.labels(label, cm.doc_denote(ast, start, strict))}
     except LookupError:
         r = {"error": "LookupError"}
+    except ValueError:
+        r = {"error": "ValueError"}  # Python: slice step cannot be zero
     return cm.single_of(strict, r) if single else r
 
 
@@ -227,6 +230,8 @@ class C14(Property):
         "Flatland.C14.Proofs.find_lax_never_lookup",
         "Flatland.C14.Proofs.strict_ok_eq_lax",
         "Flatland.C14.Proofs.no_names_never_raises",
+        "Flatland.C14.Proofs.zero_stride_reads_as_one",
+        "Flatland.C14.Proofs.C14_zero_step_fails",
     ]
     generated_obligations = []
     trusted_base = [
@@ -237,8 +242,10 @@ class C14(Property):
     ]
     assumptions = [
         "the expression cache (expression_cache, max 1024) is transparent: compiled paths are pure values",
-        "Dict children iterate in field order (dict insertion order); SparseDict is not generated",
-        "zero slice stride has no denotation; the code reads it as 1 (modelled, excluded from denote)",
+        "Dict children iterate in insertion order (field order for Dict, set() order for SparseDict; 15% of the "
+        "generated Dicts are SparseDicts); every mapping child is stored under its own name (key = name)",
+        "a zero slice stride denotes Python's ValueError; the code reads it as 1 (modelled; KF-C14-b, "
+        "C14_zero_step_fails); the positive theorems exclude it (Step.wf)",
     ]
     level_text = "proof"
     level_note = ""
@@ -292,6 +299,19 @@ class C14(Property):
         # fixed cca5199: tuple path, single+strict, several matches raised TypeError from the message formatting
         out.append(self._case(d, 0, "l/[:]", True, True, None, "tuple"))
         out.append(self._case(d, 0, "l/[:]", True, True, None, "list"))
+        # open: KF-C14-b — a slice step written as zero is read as 1
+        astz = {"top": False, "trail": False, "steps": [{"t": "slice", "a": None, "b": None, "c": {"v": 0}, "sep": False}]}
+        out.append(self._case(lst, 0, "[::0]", True, False, astz))
+        astz2 = {"top": False, "trail": False, "steps": [
+            {"t": "name", "s": "l", "br": False, "sep": False, "escall": False},
+            {"t": "slice", "a": 1, "b": None, "c": {"v": 0}, "sep": False}]}
+        out.append(self._case(d, 0, "l[1::0]", False, False, astz2))
+        # a name ending in a backslash as the very last step (spellable there only)
+        dbs = cm.number({"k": "d", "name": "r", "kids": [{"k": "s", "name": "x\\", "kids": []},
+                                                          {"k": "d", "name": "a", "kids": [{"k": "s", "name": "\\", "kids": []}]}]})
+        for nm, top_, pre in (("x\\", True, []), ("\\", False, [{"t": "name", "s": "a", "br": False, "sep": False, "escall": False}])):
+            astb = {"top": top_, "trail": False, "steps": pre + [{"t": "name", "s": nm, "br": False, "sep": False, "escall": False}]}
+            out.append(self._case(dbs, 0, cm.print_path(astb), True, True, astb))
         # tokenizer quirks kept as regression cases (no AST: correspondence only)
         for p in ["a/[x]", "a\\/b[x]", "[1][x]", "x[a\\]b]", "[1]\n", "[1]\n\n", "[-]", "[1:2-3]", "//", "a//", "[::0]",
                   "[" + "0" * 4301 + "]", "[-" + "0" * 4301 + "]", "l/" + "0" * 4301, "l/" + "0" * 4300, "[0:٣]", "l[ 1]", "l/ 1 ",
@@ -322,11 +342,8 @@ class C14(Property):
                     for c in vals:
                         ast = {"top": False, "trail": False,
                                "steps": [{"t": "slice", "a": a, "b": b, "c": {"v": c}, "sep": False}]}
-                        if c == 0:
-                            # no denotation: correspondence only
-                            yield self._case(arr, 0, cm.print_path(ast), True, False)
-                        else:
-                            yield self._case(arr, 0, cm.print_path(ast), True, False, ast)
+                        # c == 0: Python's slice raises ValueError, the code reads it as 1 (KF-C14-b)
+                        yield self._case(arr, 0, cm.print_path(ast), True, False, ast)
             for k in range(0, bound + 3):
                 ast = {"top": False, "trail": False, "steps": [{"t": "neg", "n": k, "sep": False}]}
                 yield self._case(arr, 0, cm.print_path(ast), True, False, ast)
@@ -386,6 +403,8 @@ class C14(Property):
                     steps = _rand_steps(rng, tree, walk_from, rng.choice([0, 1, 1, 2, 2, 3, 3, 4, 5, 6]),
                                         p_miss=rng.choice([0.0, 0.0, 0.1, 0.3]), canon=rng.random() < 0.75)
                     ast = {"top": top, "trail": rng.random() < 0.2, "steps": steps}
+                    if steps and steps[-1]["t"] == "name" and steps[-1]["s"].endswith("\\"):
+                        ast["trail"] = False
                     yield self._case(tree, start["id"], cm.print_path(ast), strict, single, ast, rng.choice([None] * 17 + ["list", "list", "tuple"]), init, history)
                 made += 1
 
@@ -441,7 +460,7 @@ class C14(Property):
                 fails.append({"clause": "unexpected-exception", "expected": "a result or LookupError", "observed": r})
                 break
         ast = case.get("ast")
-        if ast is not None and cm.ast_wf(ast):
+        if ast is not None and cm.ast_spellable(ast):
             if cm.print_path(ast) != path:
                 fails.append({"clause": "harness-printing", "expected": cm.print_path(ast), "observed": path})
             # "in sequence order": ascending slices on a Canon path select strictly increasing elements
@@ -464,17 +483,30 @@ class C14(Property):
         return fails
 
     def classify(self, case, failure):
-        # KF-C14-a: the path has an `X/..` pair (X a name, index or slice step, `.` steps ignored) and the
-        # implementation returns exactly the denotation of the path with those pairs deleted
         if failure.get("clause") != "denotation":
             return None
         ast = case.get("ast")
-        if ast is None or cm.canon_ast(ast):
+        if ast is None:
             return None
         root, byid, label = cm.build_case(case)
         start = byid[case["start"]]
+        observed = failure.get("observed")
+        if cm.has_zero_step(ast):
+            # KF-C14-b: a slice step written as zero; the implementation returns the denotation for step 1
+            # (of the cancelled path when, in addition, KF-C14-a applies)
+            ast1 = cm.zero_steps_as_one(ast)
+            if observed == _denote_obs(ast1, start, label, case["single"], case["strict"]):
+                return "KF-C14-b"
+            if not cm.canon_ast(ast1) and observed == _denote_obs(
+                    cm.cancel_ups(ast1), start, label, case["single"], case["strict"]):
+                return "KF-C14-b"
+            return None
+        # KF-C14-a: the path has an `X/..` pair (X a name, index or slice step, `.` steps ignored) and the
+        # implementation returns exactly the denotation of the path with those pairs deleted
+        if cm.canon_ast(ast):
+            return None
         cancelled = _denote_obs(cm.cancel_ups(ast), start, label, case["single"], case["strict"])
-        if cancelled == failure.get("observed"):
+        if cancelled == observed:
             return "KF-C14-a"
         return None
 
@@ -511,6 +543,10 @@ class C14(Property):
             t.append("canon=%s" % cm.canon_ast(ast))
             for s in ast["steps"]:
                 t.append("step:%s" % s["t"])
+            if cm.has_zero_step(ast):
+                t.append("zero-stride")
+            if ast["steps"] and ast["steps"][-1]["t"] == "name" and ast["steps"][-1]["s"].endswith("\\"):
+                t.append("last-name-ends-in-backslash")
             if ast["top"]:
                 t.append("absolute")
         nodes = list(cm.preorder(case["tree"]))
